@@ -778,7 +778,8 @@ class Interp:
         if name in ("upper", "lower", "swapcase", "casefold") and not args:
             return mk_str([getattr(p, name)() if isinstance(p, str) else mk_fd([(g, getattr(v, name)()) for g, v in p.cases])
                            for p in s.pieces])
-        if name == "count" and len(args) == 1 and isinstance(args[0], str) and len(args[0]) == 1:
+        if name == "count" and len(args) == 1 and ((isinstance(args[0], str) and len(args[0]) == 1) or
+                                                   (isinstance(args[0], FD) and all(isinstance(v, str) and len(v) == 1 for _, v in args[0].cases))):
             return self.count_true([self.truth(self.binop(ast.Eq(), c, args[0])) for c in self.chars(s)])
         if name in ("isspace", "isdigit", "isalpha", "isupper", "islower") and not args:
             cs = self.chars(s)
